@@ -103,7 +103,16 @@ def gen_cases(rng, tier):
     price = gen_price(rng, R, n, kind, sign)
     if i % 20 == 19 and price[0] == 'vector' and len(set(price[1])) < len(price[1]):
       price = ('vector', [v + F(j, 8) for j, v in enumerate(price[1])])
-    out.append({'tree': T, 'S': S, 'flat': rng.random() < 0.5, 'price': price, 'hess': hess})
+    # the FORM in which the caller hands the price over: float ndarray, (nested) Python list, whole numbers as an integer ndarray
+    # or as (nested lists of) Python ints
+    pform = 'nd'
+    if i % 8 == 2:
+      pform = 'list'
+    elif i % 8 in (5, 6):
+      pform = 'int' if i % 8 == 5 else 'intlist'
+      w = lambda v: [w(x) for x in v] if isinstance(v, list) else (F(int(v)) if int(v) != 0 else F(1 if v >= 0 else -1))
+      price = (price[0], w(price[1]))
+    out.append({'tree': T, 'S': S, 'flat': rng.random() < 0.5, 'price': price, 'hess': hess, 'pform': pform})
   return out
 
 
@@ -134,7 +143,7 @@ def observe(c):
   h0 = fr(H0[1]) if H0 and H0[0] == 'ok' else None
   obs = []
   for v in variants(c['price'], R, n):
-    p = tg.py_price(v)
+    p = tg.py_price(v, c.get('pform', 'nd'))
     cp = fr(core.maybe_stale(c, d.cost, s, p))
     gp = fr(np.array(core.maybe_stale(c, d.deriv, s, p)).reshape(R, n))
     hp = None
@@ -162,7 +171,7 @@ def nontrivial(c, o):
 
 def classify(c, o):
   T = c['tree']
-  ks = ['price:' + c['price'][0], 'n:%d' % tg.length(T), 'rows:%d' % min(tg.rows(T), 9), 'flow:' + ('flat' if c['flat'] else 'shaped')]
+  ks = ['price:' + c['price'][0], 'priceform:' + c.get('pform', 'nd'), 'n:%d' % tg.length(T), 'rows:%d' % min(tg.rows(T), 9), 'flow:' + ('flat' if c['flat'] else 'shaped')]
   P = [v for r in tg.price_matrix(c['price'], tg.rows(T), tg.length(T)) for v in r]
   ks.append('sign:' + ('pos' if all(v > 0 for v in P) else 'neg' if all(v < 0 for v in P) else 'mixed'))
   if T['kind'] == 'leaf':
@@ -178,12 +187,12 @@ def classify(c, o):
 
 def case_to_json(c):
   return {'tree': tg.tree_to_json(c['tree']), 'S': tg.matrix_to_json(c['S']), 'flat': c['flat'],
-          'price': tg.price_to_json(c['price']), 'hess': c['hess']}
+          'price': tg.price_to_json(c['price']), 'hess': c['hess'], 'pform': c.get('pform', 'nd')}
 
 
 def case_from_json(j):
   return {'tree': tg.tree_from_json(j['tree']), 'S': tg.matrix_from_json(j['S']), 'flat': bool(j['flat']),
-          'price': tg.price_from_json(j['price']), 'hess': bool(j.get('hess', True))}
+          'price': tg.price_from_json(j['price']), 'hess': bool(j.get('hess', True)), 'pform': j.get('pform', 'nd')}
 
 
 # ---- direct oracle on the implementation (floats only, no Coq model) -------------------------------------------------
@@ -201,7 +210,7 @@ def oracle(c):
     h0 = H0[1] if H0 and H0[0] == 'ok' else None
     want = float((S * P).sum())
     for v in variants(c['price'], R, n):
-      p = tg.py_price(v)
+      p = tg.py_price(v, c.get('pform', 'nd'))
       dc = float(core.maybe_stale(c, d.cost, s, p)) - c0
       if abs(dc - want) > 1e-7 * (1 + abs(want) + abs(c0)):
         return 'cost(s,p) - cost(s,0) = %r but sum(s*p) = %r for the %s price %s' % (dc, want, v[0], core.jsonable(v[1]))
@@ -227,7 +236,7 @@ def shrink(c, why):
     R, n = tg.rows(T), tg.length(T)
     P = tg.price_matrix(c['price'], R, n)
     for off, r, U in tg.units(T):
-      sub = {'tree': U, 'S': c['S'][off:off + r], 'flat': c['flat'], 'price': ('matrix', P[off:off + r]), 'hess': c['hess']}
+      sub = {'tree': U, 'S': c['S'][off:off + r], 'flat': c['flat'], 'price': ('matrix', P[off:off + r]), 'hess': c['hess'], 'pform': c.get('pform', 'nd')}
       w = oracle(sub)
       if w:
         return shrink(sub, w)
